@@ -873,3 +873,24 @@ package lorawan
 //@ func (*DLSettings).UnmarshalText
 //@   props C09 C10
 //@   modifies *s
+
+// ---------------------------------------------------------------------------
+// C03 / C10: FRMPayload and FOpts encryption (LoRaWAN 1.0.x §4.3.3, 1.1 §4.3.3 / §4.3.1.1)
+//   A_i  = 0x01 | 0x00 x4 | Dir | DevAddr (LE) | FCnt (LE, 32 bit) | 0x00 | i
+//   S_i  = aes128_encrypt(K, A_i),  i = 1..ceil(len/16);  ciphertext = plaintext xor (S_1 | S_2 | ...)
+// ---------------------------------------------------------------------------
+//@ spec dirbyte(uplink) = ite(uplink, uint8(0), uint8(1))
+//@ spec ks_block(key, uplink, a, fcnt, i) = aes_enc(key, 0x01, 0, 0, 0, 0, dirbyte(uplink), a[3], a[2], a[1], a[0], uint8(fcnt), uint8(fcnt >> 8), uint8(fcnt >> 16), uint8(fcnt >> 24), 0, i)
+//@ spec ks_byte(key, uplink, a, fcnt, k) = ks_block(key, uplink, a, fcnt, uint8((k >> 4) + 1))[k & 15]
+
+//@ func EncryptFRMPayload
+//@   props C03 C09 C10
+//@   modifies data[0:len(data)]
+//@   ensures C03/ok: err == nil && len(result) == len(data)
+//@   ensures C03/keystream: forall k int :: 0 <= k && k < len(data) ==> result[k] == old(data[k]) ^ ks_byte(key, uplink, devAddr, fCnt, k)
+//@   loop 0: invariant bounds: 0 <= i && i <= len(data) / 16
+//@   loop 0: invariant done: forall k int :: 0 <= k && k < i << 4 ==> data[k] == entry(data[k]) ^ ks_byte(key, uplink, devAddr, fCnt, k)
+//@   loop 0: invariant todo: forall k int :: i << 4 <= k && k < len(data) ==> data[k] == entry(data[k])
+//@   loop 0: invariant blockA: a[0] == 1 && a[1] == 0 && a[2] == 0 && a[3] == 0 && a[4] == 0 && a[5] == dirbyte(uplink) && a[6] == devAddr[3] && a[7] == devAddr[2] && a[8] == devAddr[1] && a[9] == devAddr[0] && a[10] == uint8(fCnt) && a[11] == uint8(fCnt >> 8) && a[12] == uint8(fCnt >> 16) && a[13] == uint8(fCnt >> 24) && a[14] == 0
+//@   loop 0: modifies data[0:len(data)], a[15:16], s[0:16]
+//@   loop 0: decreases len(data) / 16 - i
